@@ -395,7 +395,8 @@ def main(tier, replay=None):
         "extraction: ExtrOcamlBasic only; Z/positive/nat kept as extracted inductives; OCaml 4.13.1; zarith only for text I/O in harness/zio.ml",
         "residue-domain operations (Modular<T>::init/convert/axpy/sub/mul/inv, Integer::mod/mulin/addin, gcdext) are taken as exact "
         "arithmetic mod p (properties C01-C04); validated here by the correspondence run on Modular<double|float|int32_t|int64_t|uint32_t|uint64_t|Integer|ruint<7>|Log16>, Montgomery<int32_t>",
-        "not proved, only correspondence- and oracle-tested: RNSsystemFixed (product tree), uniqueness half of the polynomial CRT, ModularBalanced residue domains (oracle only)",
+        "not proved, only correspondence- and oracle-tested: the recursion of RNSsystemFixed over its product tree (one combination step is proved); "
+        "reference/ownership semantics of the C++ objects (constructor arguments changed or destroyed before use) are exercised by the harness only",
         "checks/C14.py: reads the IntRNSsystem copy map and the functor body shape from the source by regular expressions",
         "harness/c14_rns.C, harness/c14_fixedcopy.C, checks/C14.py (generators, python CRT / Lagrange oracles)",
         "g++ 12 / x86-64 for the implementation side",
@@ -441,7 +442,7 @@ def main(tier, replay=None):
         if kind == "int":
             ml = "int %s %s %s %d %s" % (facts["cksrc"], hist, body, len(o), " ".join(map(str, o)))
         elif sub in BALANCED:
-            ml = "skip"               # balanced representatives: specification oracle only
+            ml = "bal %s" % body      # balanced representatives: the model's answers do not depend on the history (C14_dom_history_independent)
         else:
             ml = "rns %s %s %d %s" % (hist, body, len(o), " ".join(map(str, o)))
         cases.append({"kind": kind, "hist": hist, "sub": sub, "ps": ps, "rs": rs, "al": al, "impl": il, "model": ml})
